@@ -232,11 +232,19 @@ def model_param_names(spec):
     return None
 
 
+def _eval_objective(fun, x):
+    try:
+        return [float(v) for v in np.atleast_1d(np.asarray(fun(np.array(x, dtype=np.float64)), dtype=np.float64))]
+    except Exception as e:
+        return "raised-" + errname(e)
+
+
 class Recorder:
     """records scipy.optimize.least_squares (the optimiser is a parameter of the model, not modelled)"""
 
-    def __init__(self):
+    def __init__(self, resid=False):
         self.calls = []
+        self.resid = resid  # also evaluate the function handed to the optimiser at the start point and at the answer
 
     def __enter__(self):
         import scipy.optimize
@@ -265,12 +273,18 @@ class Recorder:
                 entry["lb"] = [float(v) for v in np.atleast_1d(np.asarray(b[0], dtype=float))]
                 entry["ub"] = [float(v) for v in np.atleast_1d(np.asarray(b[1], dtype=float))]
             rec.calls.append(entry)
+            if rec.resid:
+                # what the fit's objective answers at the start point (the closure of Fit._fit: parameter_vector[fitted]
+                # = params; Fit._calculate_residual(parameter_vector)) - evaluated before the optimiser starts
+                entry["r0"] = _eval_objective(fun, x0)
             try:
                 r = rec.orig(fun, x0, *a, **kw)
             except Exception as e:
                 entry["err"] = errname(e)
                 raise
             entry["x"] = [float(v) for v in r.x]
+            if rec.resid:
+                entry["r1"] = _eval_objective(fun, r.x)  # ... and at the answer (what Fit._fit writes back next)
             entry["cost"] = float(r.cost)
             entry["nfev"] = int(r.nfev)
             return r
@@ -347,7 +361,7 @@ class _ProbeDone(Exception):
     """raised by the stand-in optimiser of `public_jacobian` to leave `fit()` before anything is written back"""
 
 
-def public_jacobian(fit):
+def public_jacobian(fit, want_residual=False):
     """The Jacobian the fit hands to its optimiser, over ALL parameters of the table, by public names only: for the
     moment of ONE `fit.fit()` every parameter is freed and unboxed (so that the fit is entitled to run whatever the
     table says and every column is a fitted one), `scipy.optimize.least_squares` is a stand-in that evaluates the
@@ -363,6 +377,9 @@ def public_jacobian(fit):
 
     def stand_in(fun, x0, *a, **kw):
         jac = kw.get("jac", a[0] if a else None)
+        if want_residual:
+            got["r"] = _eval_objective(fun, x0)
+            raise _ProbeDone()
         got["J"] = np.array(jac(np.array(x0, dtype=np.float64)), dtype=np.float64) if callable(jac) else None
         raise _ProbeDone()
 
@@ -380,8 +397,43 @@ def public_jacobian(fit):
         scipy.optimize.least_squares = orig
         for p, v, lo, hi, fx in saved:
             p.value, p.lower_bound, p.upper_bound, p.fixed = v, lo, hi, fx
+    if want_residual:
+        return got.get("r")
     J = got.get("J")
     return J if J is not None and J.ndim == 2 and J.shape[1] == len(saved) else None
+
+
+def residual_probe(fit):
+    """The residual vector the fit evaluates at its current parameter values.  Two routes, as for the Jacobian probe:
+    the function the public `fit.fit()` hands to its optimiser, evaluated at the start point by a stand-in optimiser
+    that leaves before anything is written (every parameter freed and unboxed for that one call, then put back), and
+    the private `Fit._calculate_residual()` while that name exists; both are read whenever they can be had and must
+    be the same vector.  '?' (ignored by `agree` and the oracle) when neither can be had (e.g. no parameter at all
+    and the private name gone)."""
+    pub = public_jacobian(fit, want_residual=True)
+    priv = getattr(fit, "_calculate_residual", None)
+    prv = None
+    if priv is not None:
+        try:
+            prv = [float(v) for v in priv()]
+        except TypeError as e:
+            if e.__traceback__ is None or e.__traceback__.tb_next is not None:
+                raise
+            prv = None
+    RESID["probe:public" + ("" if pub is not None else ":unavailable")] += 1
+    RESID["probe:private" + ("" if prv is not None else ":gone")] += 1
+    if isinstance(pub, str):
+        return pub
+    if pub is not None and prv is not None and [bits(v) for v in pub] != [bits(v) for v in prv]:
+        return f"the-fit's-own-residual-{ratlist(prv)}-is-not-what-fit()-hands-to-its-optimiser-{ratlist(pub)}"
+    r = pub if pub is not None else prv
+    return "?" if r is None else ratlist(r)
+
+
+RESID = {"probe:public": 0, "probe:public:unavailable": 0, "probe:private": 0, "probe:private:gone": 0,
+         "entries_compared_with_model": 0, "vectors_compared_with_model": 0, "vectors_all_zero(noise-free at the table values)": 0,
+         "oracle:entries_recomputed": 0, "oracle:descent_checked": 0, "oracle:refit_from_zero_residual": 0,
+         "non_finite_entries_skipped": 0}
 
 
 PRIVATE_TIES = {"Model._calculate_jacobian": 0, "Model._calculate_jacobian:gone": 0, "jacobian-through-fit()": 0,
@@ -491,6 +543,8 @@ def run_script(case):
     fit = lk.FdFit(*models)
     caller = Caller(case)
     obs = []
+    res = []  # residual observations (polynomial toy models only): one per query / fit
+    poly = all(sp["kind"] == "poly" for sp in case["models"])
     fits = []
     mtab = [[(k, None if p is None else (p.value, p.lower_bound, p.upper_bound, bool(p.fixed))) for k, p in m.defaults.items()] for m in models]  # `Model.defaults`: the public view of the model's parameter table
     for act in case["actions"]:
@@ -526,7 +580,7 @@ def run_script(case):
             except Exception as e:
                 obs.append("set:" + errname(e))
         elif a == "fit":
-            with Recorder() as rec:
+            with Recorder(resid=poly) as rec:
                 try:
                     fit.fit()
                     err = None
@@ -535,6 +589,15 @@ def run_script(case):
             call = rec.calls[0] if rec.calls else None
             COUNTS["optimiser_calls"] += len(rec.calls)
             fits.append({"call": call, "err": err})
+            if poly:
+                def _rl(v):
+                    return v if isinstance(v, str) else ratlist(v)
+                if call is None or "r0" not in call:
+                    res.append("f-")
+                elif "r1" in call:
+                    res.append("f" + _rl(call["r0"]) + ">" + _rl(call["r1"]))
+                else:
+                    res.append("f" + _rl(call["r0"]))
             if call is None:
                 obs.append("fit:" + (err or "ok-without-optimiser"))
             elif "x" not in call:
@@ -550,6 +613,11 @@ def run_script(case):
                 obs.append(observe(fit, models, strict=all(s["kind"] == "poly" for s in case["models"]) or case.get("truth") is not None))
             except Exception as e:
                 obs.append("query-raised:" + errname(e))
+            if poly:
+                try:
+                    res.append("q" + residual_probe(fit))
+                except Exception as e:
+                    res.append("q-raised:" + errname(e))
         elif a == "jac":
             try:
                 obs.append(jac_probe(fit, models, act["mi"], act["name"], act["sens"]))
@@ -557,7 +625,7 @@ def run_script(case):
                 obs.append("J:" + errname(e))
         else:
             raise ValueError(a)
-    return obs, fits, mtab
+    return obs, fits, mtab, (res if poly else None)
 
 
 def _show_unique(u, inv):
@@ -609,9 +677,9 @@ def impl(case):
         if prv is not None and prv != pub:
             return [f"helpers-say-{prv}-the-fit-says-{pub}"]
         return [pub]
-    obs, fits, mtab = run_script(case)
+    obs, fits, mtab, res = run_script(case)
     _CACHE[_key(case)] = (fits, mtab)
-    return [";".join(obs)]
+    return [";".join(obs)] if res is None else [";".join(obs), ";".join(res)]
 
 
 def enc_default(d):
@@ -674,6 +742,8 @@ def ops(case):
             toks += ["Q"]
         elif a == "jac":
             toks += ["J", str(act["mi"]), showstr(act["name"]), ratlist(act["sens"])]
+    if all(sp["kind"] == "poly" for sp in case["models"]):
+        return [" ".join(toks), " ".join(["c14.resid"] + toks[1:])]
     return [" ".join(toks)]
 
 
@@ -699,9 +769,57 @@ def _ans_agree(ia, ma):
     return len(i) == len(m) and all(_obs_agree(a, b) for a, b in zip(i, m))
 
 
+RESID_TOL = 1e-9  # DESIGN 2.2: the implementation's double against the exact rational, relative to the magnitude of the terms
+
+
+def _vec_close(iv, mv, sc):
+    """implementation's residual vector (exact rationals of its doubles) against the model's exact one"""
+    if len(iv) != len(mv) or len(sc) != len(mv):
+        return False
+    for a, b, s_ in zip(iv, mv, sc):
+        if abs(a - b) > Fraction(RESID_TOL) * s_ + Fraction(1, 10**300):
+            return False
+    RESID["entries_compared_with_model"] += len(mv)
+    RESID["vectors_compared_with_model"] += 1
+    if mv and all(b == 0 for b in mv):
+        RESID["vectors_all_zero(noise-free at the table values)"] += 1
+    return True
+
+
+def _resid_obs_agree(io, mo):
+    if io in ("q?",):
+        return True
+    if io[:1] != mo[:1]:
+        return False
+    if io == "f-" or mo == "f-":
+        return io == mo
+    ip, mp = io[1:].split(">"), mo[1:].split(">")
+    if len(ip) != len(mp):
+        return False
+    for a, b in zip(ip, mp):
+        if not a.startswith("[") or "~" not in b:
+            return False
+        mv, sc = b.split("~")
+        if "bad-float" in a:
+            RESID["non_finite_entries_skipped"] += 1
+            continue
+        if not _vec_close(parse_ratlist(a), parse_ratlist(mv), parse_ratlist(sc)):
+            return False
+    return True
+
+
+def _resid_agree(ia, ma):
+    if ia == "" and ma == "":
+        return True
+    i, m = ia.split(";"), ma.split(";")
+    return len(i) == len(m) and all(_resid_obs_agree(a, b) for a, b in zip(i, m))
+
+
 def agree(case, i, ia, ma):
     if case["op"] == "unique":
         return ia == ma
+    if i == 1:
+        return any(_resid_agree(ia, alt) for alt in ma.split(" || "))
     alts = ma.split(" || ")
     if len(alts) == 1:
         if _ans_agree(ia, alts[0]):
@@ -793,9 +911,78 @@ def cond_string(targets):
     return "|".join(str(t) for t in targets)
 
 
+def _bits_to_frac(b):
+    return Fraction(struct.unpack("<d", struct.pack("<Q", int(b)))[0])
+
+
+def _oracle_resid(case, ia):
+    """Clauses about the VALUES the fit evaluates, recomputed in plain Python from the property text (not from the
+    model): (a) at every query the residual vector is, as a multiset, {y - sum_k p_k x^k} over the samples every
+    dataset holds with p = the dataset's parameters read BY NAME from the table (a shared name: one value, a renamed
+    one: its own, a constant: itself) - this is what "every dataset sees" means for the number the optimiser
+    minimises; (b) the optimiser's contract used by the refit theorem: the sum of squares at its answer is not above
+    the one at its start (asserted on every recorded call, like OptInBox); (c) re-fitting from a point where the
+    residual is exactly zero (noise-free data at the optimum) ends with a residual that is still (numerically) zero."""
+    obs = ia[0].split(";")
+    res = ia[1].split(";") if ia[1] else []
+    k = 0
+    for act, o in zip(case["actions"], obs):
+        if act["a"] not in ("query", "fit"):
+            continue
+        if k >= len(res):
+            return f"residual: no residual observation for action {act['a']}"
+        r = res[k]
+        k += 1
+        if act["a"] == "query":
+            if r == "q?" or not o.startswith("T["):
+                continue
+            if not r.startswith("q["):
+                return f"residual: the residual of the fit could not be evaluated at a query: {r[:120]}"
+            if "bad-" in r:
+                continue
+            got = sorted(parse_ratlist(r[1:]))
+            _, per = parse_query(o)
+            held = parse_held(o)
+            exp = []
+            scale = Fraction(1)
+            skip = False
+            for dsm, hm in zip(per, held):
+                for name, (_, byname) in dsm.items():
+                    if byname is None or name not in hm:
+                        skip = True
+                        continue
+                    for xb, yb in zip(*hm[name]):
+                        xv, yv = _bits_to_frac(xb), _bits_to_frac(yb)
+                        terms = [pk * xv**j for j, pk in enumerate(byname)]
+                        exp.append(yv - sum(terms, Fraction(0)))
+                        scale = max(scale, abs(yv) + sum((abs(t) for t in terms), Fraction(0)))
+            if skip:
+                continue
+            exp.sort()
+            RESID["oracle:entries_recomputed"] += len(exp)
+            if len(exp) != len(got) or any(abs(a - b) > Fraction(RESID_TOL) * scale for a, b in zip(got, exp)):
+                return (f"residual: the fit evaluates the residual {[float(v) for v in got][:12]} (sorted) but the samples the datasets hold and the "
+                        f"parameters each dataset is mapped to (by name) give {[float(v) for v in exp][:12]}")
+        else:
+            if r == "f-" or ">" not in r or "bad-" in r or "raised" in r:
+                continue
+            a, b = r[1:].split(">")
+            c0 = sum((v * v for v in parse_ratlist(a)), Fraction(0))
+            c1 = sum((v * v for v in parse_ratlist(b)), Fraction(0))
+            RESID["oracle:descent_checked"] += 1
+            if c1 > c0 * (1 + Fraction(1, 10**9)) + Fraction(1, 10**18):
+                return f"optimiser-contract: least_squares answered a point with a larger sum of squares ({float(c1)!r}) than its start ({float(c0)!r})"
+            if c0 == 0:
+                RESID["oracle:refit_from_zero_residual"] += 1
+    return None
+
+
 def oracle(case, ia):
     try:
-        return _oracle(case, ia)
+        r = _oracle(case, ia)
+        if r is None and case["op"] == "script" and len(ia) > 1:
+            r = _oracle_resid(case, ia)
+        return r
     except Exception as e:  # an observation the oracle cannot read is not an acceptable answer
         return f"unreadable: the implementation's observations could not be interpreted ({e!r}): {ia[0][:300]}"
 
@@ -1680,6 +1867,7 @@ def extra_coverage(results):
         "variant_the_implementation_followed": dict(VARIANT),
         "counts": dict(COUNTS),
         "private_ties": dict(PRIVATE_TIES),
+        "residual_tie": dict(RESID),
         "recovery_exploration": recover,
         "exhaustive": False,
         "exhaustive_note": "the small-scope stream enumerates its finite space completely; the random and recovery streams do not; recovery of generating parameters is exploration, not proof",
